@@ -605,6 +605,21 @@ func derivesFromFormFile(c *km.Ctx, fn *ssa.Function, v ssa.Value, key string, d
 		if name == "(*bytes.Buffer).Bytes" || name == "(*bytes.Buffer).String" {
 			return bufferFilledFromFormFile(fn, km.Unwrap(x.Common().Args[0]), key)
 		}
+		// io.ReadAll(file) / io.ReadAll(io.LimitReader(file, n)) of the uploaded file
+		if name == "io.ReadAll" || name == "io/ioutil.ReadAll" {
+			src := km.Unwrap(x.Common().Args[0])
+			for i := 0; i < 2; i++ {
+				if lc, ok := src.(*ssa.Call); ok && (km.CalleeFull(lc.Common()) == "io.LimitReader" || km.CalleeFull(lc.Common()) == "net/http.MaxBytesReader") {
+					a := lc.Common().Args
+					src = km.Unwrap(a[len(a)-2])
+				}
+			}
+			if fc, idx := callRes(src); fc != nil && idx == 0 && km.CalleeFull(fc.Common()) == "(*net/http.Request).FormFile" {
+				k, ok := km.ConstString(fc.Common().Args[1])
+				return ok && k == key
+			}
+			return false
+		}
 		g := km.StaticCallee(x.Common())
 		if g == nil || g.Blocks == nil || !c.InModule(g) {
 			return false
